@@ -185,14 +185,29 @@ pub(crate) fn calculate_max_input(output_len: usize) -> usize {
     chunks * DEFAULT_CHUNK_SIZE + tail
 }
 
+/// Number of hex digits needed to write `len` (at least 1).
+fn hex_len(len: usize) -> usize {
+    (((usize::BITS - len.leading_zeros()) as usize + 3) / 4).max(1)
+}
+
 fn write_chunk(input: &[u8], input_used: &mut usize, w: &mut Writer, max_chunk: usize) -> bool {
-    // TODO(martin): Redo this to  try and calculate a perfect fit of the
-    // input into the output.
+    // A chunk is "<len in hex>\r\n<data>\r\n". The smallest possible overhead is
+    // 5: one hex digit and two \r\n.
+    let available = w.available();
 
-    // 5 is the smallest possible overhead
-    let available = w.available().saturating_sub(5);
+    let mut to_write = input.len().min(max_chunk).min(available.saturating_sub(5));
 
-    let to_write = input.len().min(max_chunk).min(available);
+    // Every additional hex digit in the chunk length takes one more byte from
+    // the output. Shrink the chunk until it fits together with its overhead.
+    while to_write > 0 && to_write + hex_len(to_write) + 4 > available {
+        to_write -= 1;
+    }
+
+    // A zero sized chunk is the end-of-body marker, which is only ever written
+    // by finish(). No room for (more) data means we are done for this output.
+    if to_write == 0 {
+        return false;
+    }
 
     let success = w.try_write(|w| {
         // chunk length
